@@ -142,16 +142,7 @@ func runProperty(ctx *Ctx, o *Options, t0 time.Time) int {
 				fr.skip = "contract-binding: function " + key + " not found in the source"
 				return
 			}
-			ex := NewExec(ctx, fn, sp.Funcs[key], true)
-			ex.canaries = true
-			func() {
-				defer func() {
-					if r := recover(); r != nil {
-						ex.errs = append(ex.errs, fmt.Sprintf("engine failure: %v", r))
-					}
-				}()
-				ex.Verify()
-			}()
+			ex := VerifyFunc(ctx, fn, sp.Funcs[key], true, true)
 			fr.ex = ex
 		}(i, key)
 	}
@@ -496,7 +487,17 @@ func runGoTest(o *Options, pkg, test string, env []string, timeout string) (out 
 	b, _ := cmd.CombinedOutput()
 	out = string(b)
 	if len(out) > 6000 {
-		out = out[:3000] + "\n...\n" + out[len(out)-3000:]
+		// keep every verdict line of the harness; drop the bulk of the log noise in between
+		var keep []string
+		for _, l := range strings.Split(out, "\n") {
+			for _, p := range []string{"KNOWN-FINDING-REPRODUCED", "REPLAY-", "BOUNDED ", "--- ", "ok  \t", "FAIL", "PASS", "panic:"} {
+				if strings.HasPrefix(l, p) {
+					keep = append(keep, l)
+					break
+				}
+			}
+		}
+		out = out[:2000] + "\n...\n" + out[len(out)-2000:] + "\n" + strings.Join(keep, "\n") + "\n"
 	}
 	cmdStr = fmt.Sprintf("cd %s && %s go test -overlay <(echo '%s') -vet=off -count=1 -timeout %s -run '^%s$' .", pkgDir, strings.Join(env, " "), string(ovData), timeout, test)
 	return out, cmdStr, true
